@@ -76,6 +76,8 @@ func gOp(o *jOp) string {
 		return fmt.Sprintf("Advance %s", kit.GZ(o.Ms))
 	case "restart":
 		return "Restart"
+	case "gone":
+		return fmt.Sprintf("CandGone %s", gnat(o.Node))
 	}
 	panic("gOp")
 }
@@ -219,6 +221,21 @@ func classify(o *jOp, es []effect, before, after snapshot) []string {
 				b += fmt.Sprintf(":repl=%d", len(cmd.Latched))
 				if timed {
 					b += ":after-timeout"
+				}
+			}
+			goneBefore, survivorAfterGone := false, false
+			for _, m := range cmd.Cands {
+				if before.Nodes[m].Gone {
+					goneBefore = true
+				} else if goneBefore {
+					survivorAfterGone = true
+				}
+			}
+			if goneBefore && (o.Ret == "RFailed" || o.Ret == "RSucceeded") {
+				if survivorAfterGone {
+					out = append(out, "recon:"+o.Ret+":a-candidate-vanished-before-a-survivor")
+				} else {
+					out = append(out, "recon:"+o.Ret+":only-trailing-candidates-vanished")
 				}
 			}
 			if before.Now-cmd.Created == 600000 {
